@@ -12,7 +12,10 @@ typedef std::vector<uint8_t> Bytes;
 // subjectAltName entry kinds (GeneralName CHOICE)
 enum SanKind { SK_DNS = 0, SK_EMAIL, SK_IP, SK_URI, SK_OTHER, SK_DIR, SK_NKINDS };
 // commonName string encodings
-enum CnType { CN_UTF8 = 0, CN_PRINTABLE, CN_IA5, CN_T61, CN_BMP, CN_BIT, CN_NTYPES };
+enum CnType { CN_UTF8 = 0, CN_PRINTABLE, CN_IA5, CN_T61, CN_BMP, CN_BIT,
+              CN_BITRAW, // tag 0x03 (BIT STRING) whose content octets are exactly `cn` (no unused-bits octet is prepended: the first byte of `cn` sits in its place).
+                         // libcrypto cannot encode this, so the TBS is patched and re-signed (see mint.cc); a CA that signs what it is sent can.
+              CN_NTYPES };
 
 struct SanEntry {
     int kind;
@@ -32,6 +35,8 @@ struct LeafSpec {
     bool san_critical = false;
     uint64_t serial = 1;
     int issuer = 0;              // 0 = EC P-256 CA + EC leaf key, 1 = RSA-2048 CA + RSA leaf key
+    int validity = 0;            // VAL_OK: 2026-01-01..2027-12-31 (valid at the pinned clock); VAL_EXPIRED: 2024-01-01..2025-12-31; VAL_NOT_YET: 2028-01-01..2029-12-31
+    bool self_signed = false;    // issuer name = subject name, signed with the leaf's own key (keyUsage gets keyCertSign, no authorityKeyIdentifier)
 
     // ---- name-bearing fields that do NOT name the subject for the purpose of the expected-name check (all optional, all non-critical)
     std::vector<SanEntry> ian;   // issuerAltName (2.5.29.18) GeneralNames, same encoding as `san`; empty = no extension
@@ -47,9 +52,10 @@ struct LeafSpec {
 };
 
 enum { ISS_EC = 0, ISS_RSA = 1 };
+enum { VAL_OK = 0, VAL_EXPIRED = 1, VAL_NOT_YET = 2 };
 // Loads test CA `which` (certificate + key) and its leaf key from PEM files.  Returns false + message on failure.
 bool mint_init(int which, const std::string &ca_pem, const std::string &ca_key_pem, const std::string &leaf_key_pem, std::string *err);
-// Mint a leaf (SHA-256 signature by test CA spec.issuer, validity 2026-01-01 .. 2027-12-31).  false = OpenSSL could not encode it.
+// Mint a leaf (SHA-256 signature by test CA spec.issuer or by its own key, validity per spec.validity).  false = OpenSSL could not encode it.
 bool mint_leaf(const LeafSpec &spec, Bytes &der_out);
 const Bytes &ca_der(int which);        // DER of the CA certificate
 const Bytes &leaf_key_der(int which);  // DER private key of every leaf of that issuer (SEC1 ECPrivateKey / PKCS#1 RSAPrivateKey)
